@@ -62,7 +62,8 @@ def run(ctx):
                 "histories: one object observed (bytes/len) and modified step by step (attribute assignment; "
                 "in-place item assignment/append/pop/insert/del on array values), checked against its current "
                 "field values; decode-side histories: decode, edit decoded objects in place, decode other / the same "
-                "bytes / empty arrays again, compare with the reference decode, no shared mutable parts; "
+                "bytes / empty arrays again, host- and return-direction messages interleaved (incl. equal type bytes in "
+                "both directions), compare with the reference decode, no shared mutable parts; "
                 "malformed: every truncation of valid messages, wrong type bytes, bad OptionalInt tags, "
                 "negative / too large lengths, random bytes. Non-trivial = a message with some non-zero field "
                 "or a non-empty array / malformed input; distinct by the message JSON / byte string")
@@ -117,6 +118,7 @@ def run(ctx):
         if rb is None:
             res.failures.append({"what": "serialising an in-width message raises", "input": mj, "kf": None})
             continue
+        order_before = H.decode_order_tail()
         rd = H.real_deserialize(direction, rb)
         if md != rd:
             res.disagreements.append({"stream": "msg.deserialize", "input": {"dir": direction, "b": rb[:200]},
@@ -127,7 +129,8 @@ def run(ctx):
             if "m" in rd and mj["k"] == "arr" and rd["m"].get("k") == "arr":
                 diff = [(i, a, b) for i, (a, b) in enumerate(zip(mj["v"], rd["m"]["v"])) if a != b][:5]
             res.failures.append({"what": "deserialize(bytes(m)) != m", "kf": None,
-                                 "input": {"dir": direction, "m": mj if len(key) < 2000 else tag,
+                                 "input": {"dir": direction, "decoder_calls_before": order_before,
+                                           "m": mj if len(key) < 2000 else tag,
                                            "got": str(rd)[:600], "first_differences": diff}})
         if len(res.samples) < 5 and res.evaluations % 61 == 0 and len(key) < 300:
             res.samples.append({"dir": direction, "m": mj, "bytes": rb})
@@ -176,18 +179,24 @@ def run(ctx):
         res.evaluations += 1
         res.count(tag)
         res.nontrivial.add(("hist", json.dumps([mj, us], sort_keys=True)))
-        obj = H.make_msg(mj)
-        bad = None
-        for k, u in enumerate(us):
-            H.apply_real(obj, mj, u, k)
-            if u["u"] == "obs" and bad is None:
+        bad, cur, rb = None, None, None
+        try:
+            obj = H.make_msg(mj)
+            for k, u in enumerate(us):
+                H.apply_real(obj, mj, u, k)
+                if u["u"] == "obs" and bad is None:
+                    bad = H.own_bytes_ok(direction, obj)
+                    if bad is not None:
+                        bad["after_steps"] = k + 1
+            if bad is None:
                 bad = H.own_bytes_ok(direction, obj)
-                if bad is not None:
-                    bad["after_steps"] = k + 1
-        if bad is None:
-            bad = H.own_bytes_ok(direction, obj)
-        cur = H.msg_to_json(obj)
-        rb = list(bytes(obj))
+            cur = H.msg_to_json(obj)
+            rb = list(bytes(obj))
+        except Exception as e:  # the real code raises on a legal construct / update / serialise step
+            res.failures.append({"what": "a message history of legal steps raises in the real code", "kf": None,
+                                 "input": {"dir": direction, "start": mj, "updates": us,
+                                           "exception": type(e).__name__ + ": " + str(e)[:160]}})
+            continue
         if mh.get("m") != cur or mh.get("b") != rb:
             res.disagreements.append({"stream": "msg.history", "input": {"m": mj, "updates": us},
                                       "model": {"m": mh.get("m"), "b": (mh.get("b") or [])[:120]},
@@ -207,7 +216,17 @@ def run(ctx):
     dpool += [("ret", {"k": "arr", "a": a, "v": []}, H.real_serialize({"k": "arr", "a": a, "v": []})[0])
               for a in (0, 1, -1, 7, 2 ** 31 - 1)]
     n_dh = 1500 if thorough else 300
-    dh = [H.run_decode_history(dpool, rng, rng.randrange(3, 10)) for _ in range(n_dh)]
+    # explicit mixed-direction order: for every type byte used in BOTH directions, decode a host message,
+    # then a return message with the same type byte, then each again (the two decoders live in one module)
+    dh = []
+    host_by_tag, ret_by_tag = {}, {}
+    for d, mj, rb in dpool:
+        (host_by_tag if d == "host" else ret_by_tag).setdefault(rb[0], []).append((d, mj, rb))
+    for tagb in sorted(set(host_by_tag) & set(ret_by_tag)):
+        for first, second in ((host_by_tag, ret_by_tag), (ret_by_tag, host_by_tag)):
+            a, b = rng.choice(first[tagb]), rng.choice(second[tagb])
+            dh.append(H.run_decode_history(dpool, rng, 0, script=[a, b, a, b]))
+    dh += [H.run_decode_history(dpool, rng, rng.randrange(3, 10)) for _ in range(n_dh)]
     reqs = [{"op": "msg.hist", "m": mj, "us": us} for steps, problems, live in dh for (_, mj, us, _) in live]
     outs = iter(ctx.driver.batch(reqs))
     for steps, problems, live in dh:
